@@ -1,6 +1,7 @@
 use crate::rng::Rng;
 
 pub mod alloc;
+pub mod bench;
 pub mod fmt;
 pub mod reg;
 pub mod sort;
@@ -13,6 +14,7 @@ pub fn gen(lab: &str, rng: &mut Rng, n: usize) -> Vec<String> {
         "alloc" => alloc::gen(rng, n),
         "fmt" => fmt::gen(rng, n),
         "reg" => reg::gen(rng, n),
+        l if l.starts_with("bench-p") => bench::gen(rng, n, l["bench-p".len()..].parse().unwrap()),
         "ovw" => reg::gen_ovw(rng, n),
         "sort" => sort::gen(rng, n),
         _ => panic!("unknown lab {lab}"),
@@ -28,6 +30,7 @@ pub fn exec(verb: &str, req: &str) -> String {
         "fd" | "f64" | "bytes" | "thr" => fmt::exec(verb, &toks),
         "natcmp" | "natcmp3" | "argcmp" | "argsort" => sort::exec(verb, &toks),
         "reg" => reg::exec(verb, &toks),
+        "bench" => bench::exec(&toks),
         "ovw" => reg::exec_ovw(&toks),
         _ => format!("bad-verb"),
     }
